@@ -132,6 +132,22 @@ func (k *kernel) loop() {
 			R.finish("inconclusive", "event cap reached")
 		}
 		next.fn()
+		if ca := R.c.CloseAt; ca != nil && n == ca.K {
+			d := time.Duration(0)
+			if ca.Half {
+				// half way to the next model event: lands inside back-offs, long polls and time-outs
+				k.mu.Lock()
+				if len(k.h) > 0 {
+					d = time.Until(k.h[0].at) / 2
+				}
+				k.mu.Unlock()
+			}
+			if d <= 0 {
+				R.triggerClose()
+			} else {
+				time.AfterFunc(d, R.triggerClose)
+			}
+		}
 	}
 }
 
